@@ -68,6 +68,8 @@ def run_session(table, config, ops):
                 out.append(it["v"])
             elif it["kind"] == "test":
                 out.append(TESTNAME[it["v"]])
+            elif it["kind"] == "rollupname":
+                out.append("".join(it["v"]))
             else:
                 import importlib
                 out.append(getattr(importlib.import_module("ioos_qc." + MODOF.get(it["v"], "qartod")), TESTNAME[it["v"]]))
@@ -197,9 +199,14 @@ def check(ctx):
         # one store object, a history of operations: saves before and after compute_aggregate (also twice), the same
         # options again, other options (with filters) in between
         plain = dict(opts, include={"given": False, "items": []}, exclude={"given": False, "items": []})
+        # filters that name a roll-up by its test name (next to a stream id), as include and as exclude
+        rn = {"kind": "rollupname", "v": chars(r.choice(ROLLUP_NAMES[:2]))}
+        inc_roll = dict(plain, include={"given": True, "items": [rn, {"kind": "stream", "v": s1}]})
+        exc_roll = dict(plain, exclude={"given": True, "items": [rn]})
         other = dict(opts, write_data=not opts["write_data"], write_axes=not opts["write_axes"])
         an = r.choice(ROLLUP_NAMES)
-        pool = [("save", opts), ("save", plain), ("save", other), ("agg", "rollup"), ("save", opts), ("agg", an), ("save", plain)]
+        pool = [("save", opts), ("save", plain), ("save", other), ("agg", "rollup"), ("save", opts), ("agg", an), ("save", plain),
+                ("save", inc_roll), ("save", exc_roll), ("agg", "qc_rollup")]
         ops = [("save", opts)] if r.random() < 0.3 else [r.choice(pool) for _ in range(r.randint(2, 6))]
         if not any(op[0] == "save" for op in ops):
             ops.append(("save", plain))
